@@ -294,8 +294,11 @@ def run(ctx, rep):
         fns.extend(prog.find(rx))
     # private helpers (and their closures) that the assembly functions are split into read inputs on their behalf
     have = {f.path for f in fns}
-    for path, g in sorted(prog.reach(fns).items()):
-        if path not in have and g.crate == 'libcnb' and g.vis != 'pub' and g.kind in ('Fn', 'AssocFn', 'Closure'):
+    # (the telemetry exporter of the optional `trace` feature is documented best-effort and reads no platform input:
+    # outside the property's subject, as in C12)
+    out_of_subject = lambda p_: p_.startswith('libcnb::tracing::')
+    for path, g in sorted(prog.reach(fns, stop=lambda f_: out_of_subject(f_.path)).items()):
+        if path not in have and g.crate == 'libcnb' and g.vis != 'pub' and g.kind in ('Fn', 'AssocFn', 'Closure') and not out_of_subject(path):
             fns.append(g)
     for f in fns:
         rep.analysed(f)
